@@ -351,7 +351,10 @@ def _sim(a: str, b: str) -> float:
     ka, kb = _kind(a), _kind(b)
     if ka != kb:
         return 0.0
-    if os.environ.get('KFV_NOFUZZY') == '1':
+    # Only equal signatures pair up.  A similarity threshold (difflib ratio >= 0.7) was used here for a while; it is a guess,
+    # it mis-assigned names twice (DESIGN.md section 7, round 4; section 8), and the whole corpus (2 884 runs) is decided
+    # identically without it.  KFV_FUZZY=1 re-enables it for experiments.
+    if os.environ.get('KFV_FUZZY') != '1':
         return 0.0
     r = difflib.SequenceMatcher(None, a, b, autojunk=False).ratio()
     return r if r >= 0.7 else 0.0
